@@ -294,12 +294,28 @@ func ruleLimitOverflowBit(w *World, r *RuleResult) {
 		for _, p := range paths {
 			// only paths on which SystemOverflow(res) was found true
 			sysOver := false
+			// … and that do not answer the same test of the same value both ways (the method is called
+			// again in a later case of a switch: two SSA values, one fact)
+			type sysFact struct {
+				v    ssa.Value
+				bits int
+			}
+			outcome := map[sysFact]bool{}
+			contradictory := false
 			for _, d := range p.Decisions {
-				if _, bits, tms, ok := w.systemTest(d.Cond); ok && d.Val == tms && bits == 1 {
-					sysOver = true
+				if tv, bits, tms, ok := w.systemTest(d.Cond); ok {
+					set := d.Val == tms // true: one of the bits is set
+					k := sysFact{tv, bits}
+					if prev, had := outcome[k]; had && prev != set {
+						contradictory = true
+					}
+					outcome[k] = set
+					if set && bits == 1 {
+						sysOver = true
+					}
 				}
 			}
-			if !sysOver {
+			if !sysOver || contradictory {
 				continue
 			}
 			n++
